@@ -163,9 +163,10 @@ Section Skel.
   Variable stop : nat -> st -> bool.          (* convergence / callback decision after a sweep *)
   Variable normf : st -> st.                  (* cp_normalize / tucker_normalize *)
   Variable normalize : bool.                  (* normalize_factors (default False) *)
-  (* parafac: `if orthogonalise and iteration <= orthogonalise: factors = [tl.qr(f)[0] if min(tl.shape(f)) >= rank else f
-     for i, f in enumerate(factors)]` -- an arbitrary function of the state applied before the sweep *)
-  Variable pre : nat -> st -> st.
+  (* parafac: `if orthogonalise and iteration <= orthogonalise: factors = [tl.qr(f)[0] if min(tl.shape(f)) >= rank and
+     i not in fixed_modes else f for i, f in enumerate(factors)]` (commit ef1ea18 added the fixed_modes condition):
+     `pre it i s` is the replacement of factor i, an arbitrary function of the state before the hook *)
+  Variable pre : nat -> nat -> st -> M.
   Variable pre_on : nat -> bool.
   (* after the sweep: error_calc (mask imputation `tensor*mask + rec*(1-mask)`, norm, sparse component, rec_errors) *)
   Variable post : nat -> st -> X.
@@ -186,18 +187,23 @@ Section Skel.
     if normalize && inner_norm a && negb (Nat.eqb m (last ml 0)) then normf s1 else s1.
   Definition sweep (a : algo) (it : nat) (ml : list nat) (s : st) : st := fold_left (step a it ml) ml s.
 
+  Fixpoint pre_apply (g : nat -> M) (free : nat -> bool) (off : nat) (fs : list M) : list M :=
+    match fs with [] => [] | f :: r => (if free off then g off else f) :: pre_apply g free (S off) r end.
+  Definition pre_state (free : nat -> bool) (it : nat) (s : st) : st :=
+    mkst (wts s) (pre_apply (fun i => pre it i s) free 0 (facs s)) (aux s).
+
   Definition ls_point (it : nat) (s0 s1 : st) : st :=
     mkst (lsw it s1 (wts s0) (wts s1)) (map2 (lsf it s1) (facs s0) (facs s1)) (lsx it s0 s1).
 
-  Fixpoint iterate (a : algo) (budget it : nat) (ml : list nat) (s : st) : st :=
+  Fixpoint iterate (a : algo) (free : nat -> bool) (budget it : nat) (ml : list nat) (s : st) : st :=
     match budget with
     | 0 => s
-    | S b => let s0 := if has_hooks a && pre_on it then pre it s else s in
+    | S b => let s0 := if has_hooks a && pre_on it then pre_state free it s else s in
              let sw := sweep a it ml s0 in
              let s1 := mkst (wts sw) (facs sw) (post it sw) in
              let s2 := if has_hooks a && ls_on it && ls_accept it s0 s1 then ls_point it s0 s1 else s1 in
              let s3 := if normalize then normf s2 else s2 in
-             if stop it s3 then s3 else iterate a b (S it) ml s3
+             if stop it s3 then s3 else iterate a free b (S it) ml s3
     end.
 
   Definition run (a : algo) (n : nat) (fixed : list nat) (budget : nat) (tol : bool) (s : st) : res st :=
@@ -205,7 +211,7 @@ Section Skel.
     else let ml := modes_list a n fixed in
          if empty_returns a && Nat.eqb (length ml) 0 then Ok s
          else if needs_mode a tol && Nat.ltb 0 budget && Nat.eqb (length ml) 0 then Err
-         else Ok (iterate a budget 0 ml s).
+         else Ok (iterate a (fun i => negb (memb i (eff_fixed a n fixed))) budget 0 ml s).
 End Skel.
 Arguments st : clear implicits.
 
